@@ -4,7 +4,7 @@
    is a Section variable of the generated files, so every theorem holds for every L. *)
 From Coq Require Import ZArith List.
 From MomoCommon Require Import GenPrelude.
-From C16 Require Gen_Log2_64 Gen_Log2_32 Gen_SegSqrt Gen_SegCnst Log2_Proofs SegMath SegSqrt_Proofs SegCnst_Proofs
+From C16 Require Gen_Log2_64 Gen_Log2_32 Gen_SegSqrt Gen_SegCnst Fast Log2_Proofs SegMath SegSqrt_Proofs SegCnst_Proofs
   SegModel SegModel_Inst.
 Local Open Scope Z_scope.
 
@@ -163,3 +163,106 @@ Theorem C16_cnst_reachable_inv : forall L, 0 <= L <= 62 -> forall st,
   SegModel.inv (Gen_SegCnst.GetSegItemIndexes L) SegModel_Inst.maxi (SegModel_Inst.SCc L) st.
 Proof. exact SegModel_Inst.cnst_reachable_inv. Qed.
 Print Assumptions C16_cnst_reachable_inv.
+
+(* ---- round 2 ---- *)
+
+(* the executables that are run against the real C++ (Fast.v: wrapU computed with a literal mask) are, for ALL arguments,
+   equal to the regenerated functions: validating them validates the generated Gallina *)
+Theorem C16_fast_twins_equal :
+  (forall v, Fast.log2_64 v = Gen_Log2_64.Log2 v) /\ (forall v, Fast.log2_32 v = Gen_Log2_32.Log2 v) /\
+  (forall L i, Fast.sq_seg L i = Gen_SegSqrt.GetSegItemIndexes L i) /\ (forall L s j, Fast.sq_idx L s j = Gen_SegSqrt.GetIndex L s j) /\
+  (forall L s, Fast.sq_cnt L s = Gen_SegSqrt.GetItemCount L s) /\
+  (forall L i, Fast.cn_seg L i = Gen_SegCnst.GetSegItemIndexes L i) /\ (forall L s j, Fast.cn_idx L s j = Gen_SegCnst.GetIndex L s j) /\
+  (forall L, Fast.cn_cnt L = Gen_SegCnst.GetItemCount L).
+Proof. exact Fast.twins_equal. Qed.
+Print Assumptions C16_fast_twins_equal.
+
+(* the exact boundary of the sqrt claims.  Round trip: EVERY size_t index except (L = 0, index = SIZE_MAX), i.e. the
+   top 2^L indexes are fine for L >= 1 *)
+Theorem C16_sqrt_seg_roundtrip_full : forall L i, 0 <= L < 64 -> (0 <= i < 2 ^ 64 /\ (L = 0 -> i < 2 ^ 64 - 1)) ->
+  Gen_SegSqrt.GetIndex L (fst (Gen_SegSqrt.GetSegItemIndexes L i)) (snd (Gen_SegSqrt.GetSegItemIndexes L i)) = i.
+Proof. exact SegSqrt_Proofs.seg_roundtrip_all. Qed.
+Print Assumptions C16_sqrt_seg_roundtrip_full.
+
+(* offset bound / true power of two: additionally not (L = 63 and index >= 2^63) *)
+Theorem C16_sqrt_item_lt_count_full : forall L i, 0 <= L < 64 -> (0 <= i < 2 ^ 64 /\ (L = 0 -> i < 2 ^ 64 - 1)) ->
+  (L <= 62 \/ i < 2 ^ 63) ->
+  let s := fst (Gen_SegSqrt.GetSegItemIndexes L i) in let j := snd (Gen_SegSqrt.GetSegItemIndexes L i) in
+  0 <= s /\ 0 <= j < Gen_SegSqrt.GetItemCount L s /\
+  Gen_SegSqrt.GetItemCount L s = 2 ^ (SegMath.slog s + L) /\ SegMath.slog s + L < 64.
+Proof. exact SegSqrt_Proofs.item_lt_count_all. Qed.
+Print Assumptions C16_sqrt_item_lt_count_full.
+
+Theorem C16_sqrt_seg_contiguous_full : forall L i, 0 <= L < 64 -> 0 <= i ->
+  (0 <= i + 1 < 2 ^ 64 /\ (L = 0 -> i + 1 < 2 ^ 64 - 1)) -> (L <= 62 \/ i < 2 ^ 63) ->
+  let s := fst (Gen_SegSqrt.GetSegItemIndexes L i) in let j := snd (Gen_SegSqrt.GetSegItemIndexes L i) in
+  Gen_SegSqrt.GetSegItemIndexes L (i + 1) =
+    if Z.ltb (j + 1) (Gen_SegSqrt.GetItemCount L s) then (s, j + 1) else (s + 1, 0).
+Proof. exact SegSqrt_Proofs.seg_contiguous_all. Qed.
+Print Assumptions C16_sqrt_seg_contiguous_full.
+
+(* what the code does at the excluded argument: for L = 0, index = SIZE_MAX the addition index1 = (index >> 0) + 1 wraps to 0,
+   Log2(0) reads tab64[0] = 63, and the result is the slot of index 2^62 - 1: the mapping stops being injective exactly here *)
+Theorem C16_sqrt_top_L0_aliases :
+  Gen_SegSqrt.GetSegItemIndexes 0 (2 ^ 64 - 1) = (2 ^ 32 - 2, 0) /\
+  Gen_SegSqrt.GetSegItemIndexes 0 (2 ^ 62 - 1) = (2 ^ 32 - 2, 0) /\ Gen_SegSqrt.GetIndex 0 (2 ^ 32 - 2) 0 = 2 ^ 62 - 1.
+Proof. exact SegSqrt_Proofs.top_L0_aliases. Qed.
+Print Assumptions C16_sqrt_top_L0_aliases.
+
+(* L = 63: indexes >= 2^63 are in segment 1 whose size would be 2^64; GetItemCount(1) shifts by 64 (undefined in C++;
+   the generated model wraps to 0) *)
+Theorem C16_sqrt_top_L63_shift_64 :
+  Gen_SegSqrt.GetSegItemIndexes 63 (2 ^ 63) = (1, 0) /\ Gen_SegSqrt.pvSegIndexToLogItemCount 1 + 63 = 64 /\
+  Gen_SegSqrt.GetItemCount 63 1 = 0.
+Proof. exact SegSqrt_Proofs.top_L63_shift_64. Qed.
+Print Assumptions C16_sqrt_top_L63_shift_64.
+
+(* ---- two arrays (SegModel.world): whole-array move / swap / copy ---- *)
+
+(* B = std::move(A) (and move construction): B's element i is at the address A's element i had; A is left without segments *)
+Theorem C16_move_steals : forall seg idx w w', SegModel.wstep seg idx w SegModel.MoveAB = Some w' ->
+  (forall i, SegModel.addr seg (SegModel.stB w') i = SegModel.addr seg (SegModel.stA w) i) /\
+  SegModel.cb w' = SegModel.ca w /\ SegModel.ca w' = 0 /\ SegModel.sa w' = nil.
+Proof. exact SegModel.move_steals. Qed.
+Print Assumptions C16_move_steals.
+
+Theorem C16_swap_exchanges : forall seg idx w w', SegModel.wstep seg idx w SegModel.SwapAB = Some w' ->
+  (forall i, SegModel.addr seg (SegModel.stB w') i = SegModel.addr seg (SegModel.stA w) i) /\
+  (forall i, SegModel.addr seg (SegModel.stA w') i = SegModel.addr seg (SegModel.stB w) i) /\
+  SegModel.cb w' = SegModel.ca w /\ SegModel.ca w' = SegModel.cb w.
+Proof. exact SegModel.swap_exchanges. Qed.
+Print Assumptions C16_swap_exchanges.
+
+(* a copy (copy constructor / copy assignment, shrink or not) has the same count, leaves the source alone and consists only
+   of fresh segments: no address of the copy is an address of the source or of the overwritten array *)
+Theorem C16_sqrt_copy_is_fresh : forall L, 0 <= L <= 62 -> forall w sh w',
+  SegModel.winv (Gen_SegSqrt.GetSegItemIndexes L) SegModel_Inst.maxi (SegModel_Inst.SCq L) w ->
+  SegModel.wop_ok (Gen_SegSqrt.GetIndex L) SegModel_Inst.maxi w (SegModel.CopyAB sh) ->
+  SegModel.wstep (Gen_SegSqrt.GetSegItemIndexes L) (Gen_SegSqrt.GetIndex L) w (SegModel.CopyAB sh) = Some w' ->
+  SegModel.cb w' = SegModel.ca w /\ SegModel.ca w' = SegModel.ca w /\ SegModel.sa w' = SegModel.sa w /\
+  (forall id, In id (SegModel.sb w') -> ~ In id (SegModel.sa w) /\ ~ In id (SegModel.sb w)).
+Proof. exact SegModel_Inst.sqrt_copy_is_fresh. Qed.
+Print Assumptions C16_sqrt_copy_is_fresh.
+
+Theorem C16_cnst_copy_is_fresh : forall L, 0 <= L <= 62 -> forall w sh w',
+  SegModel.winv (Gen_SegCnst.GetSegItemIndexes L) SegModel_Inst.maxi (SegModel_Inst.SCc L) w ->
+  SegModel.wop_ok (Gen_SegCnst.GetIndex L) SegModel_Inst.maxi w (SegModel.CopyAB sh) ->
+  SegModel.wstep (Gen_SegCnst.GetSegItemIndexes L) (Gen_SegCnst.GetIndex L) w (SegModel.CopyAB sh) = Some w' ->
+  SegModel.cb w' = SegModel.ca w /\ SegModel.ca w' = SegModel.ca w /\ SegModel.sa w' = SegModel.sa w /\
+  (forall id, In id (SegModel.sb w') -> ~ In id (SegModel.sa w) /\ ~ In id (SegModel.sb w)).
+Proof. exact SegModel_Inst.cnst_copy_is_fresh. Qed.
+Print Assumptions C16_cnst_copy_is_fresh.
+
+(* every world operation (ops on either array, move, swap, copy) keeps both invariants and "every segment id is below
+   the id counter"; hence all of the above applies in every reachable two-array state *)
+Theorem C16_sqrt_wreachable_inv : forall L, 0 <= L <= 62 -> forall w,
+  SegModel.wreachable (Gen_SegSqrt.GetSegItemIndexes L) (Gen_SegSqrt.GetIndex L) SegModel_Inst.maxi w ->
+  SegModel.winv (Gen_SegSqrt.GetSegItemIndexes L) SegModel_Inst.maxi (SegModel_Inst.SCq L) w.
+Proof. exact SegModel_Inst.sqrt_wreachable_inv. Qed.
+Print Assumptions C16_sqrt_wreachable_inv.
+
+Theorem C16_cnst_wreachable_inv : forall L, 0 <= L <= 62 -> forall w,
+  SegModel.wreachable (Gen_SegCnst.GetSegItemIndexes L) (Gen_SegCnst.GetIndex L) SegModel_Inst.maxi w ->
+  SegModel.winv (Gen_SegCnst.GetSegItemIndexes L) SegModel_Inst.maxi (SegModel_Inst.SCc L) w.
+Proof. exact SegModel_Inst.cnst_wreachable_inv. Qed.
+Print Assumptions C16_cnst_wreachable_inv.
